@@ -71,6 +71,10 @@ struct World {
     log: Vec<String>,
     run_dir: std::path::PathBuf,
     offered: BTreeSet<(usize, u64)>,
+    /// reference database: merges complete versions in the order the node applied them
+    /// (cr-sqlite's result for an incomplete history depends on the merge order)
+    shadow: Shadow,
+    applied: BTreeSet<(usize, u64)>,
 }
 
 fn vio(class: &str, detail: serde_json::Value) -> Violation {
@@ -81,6 +85,7 @@ impl World {
     async fn new(seed: u64, cfg: Cfg, dir: &Path) -> R<World> {
         std::fs::create_dir_all(dir)?;
         verif::ingest_reset();
+        let _ = verif::applied_take();
         reset_dropped();
         let mut knobs = Knobs::default();
         knobs.real_ingest = true;
@@ -119,6 +124,8 @@ impl World {
             log: vec![],
             run_dir: dir.to_path_buf(),
             offered: BTreeSet::new(),
+            shadow: Shadow::create(&dir.join("shadow.db"), ingest_actor, SCHEMA_T1, TABLES_T1)?,
+            applied: BTreeSet::new(),
         })
     }
 
@@ -202,13 +209,17 @@ impl World {
             .read()
             .await
             .map_err(|e| SimError::Harness(format!("pool: {e}")))?;
-        // reference: merge of every version the node claims to hold completely
-        let shadow = Shadow::create(
-            &self.run_dir.join(format!("shadow-{}.db", self.stats.oracle_checks)),
-            self.ingest.actor,
-            SCHEMA_T1,
-            TABLES_T1,
-        )?;
+        // reference: merge of every version the node applied, in the node's order
+        for (actor, v) in verif::applied_take() {
+            let Some(o) = self.actors.iter().position(|a| a.to_bytes() == actor) else {
+                continue;
+            };
+            let Some((_, reference)) = self.versions.get(&(o, v)) else {
+                return Ok(Err(vio("applied-version-never-written", json!({"origin": o, "version": v}))));
+            };
+            self.shadow.merge(reference)?;
+            self.applied.insert((o, v));
+        }
         let keys: Vec<(usize, u64)> = self.versions.keys().cloned().collect();
         for (o, v) in keys {
             let (whole, partial) = self.holds(o, v).await;
@@ -219,7 +230,12 @@ impl World {
                         json!({"origin": o, "version": v}),
                     )));
                 }
-                shadow.merge(&self.versions[&(o, v)].1)?;
+                if !self.applied.contains(&(o, v)) {
+                    return Ok(Err(vio(
+                        "claims-version-never-applied",
+                        json!({"origin": o, "version": v}),
+                    )));
+                }
             } else if partial {
                 // claimed sequences must be buffered
                 let booked = self.ingest.bookie.read::<&str, _>("sim", None).await.get(&self.actors[o]).cloned().unwrap();
@@ -241,7 +257,7 @@ impl World {
             }
         }
         let t_node = dump_tables(&conn, TABLES_T1)?;
-        let t_ref = dump_tables(&shadow.conn, TABLES_T1)?;
+        let t_ref = dump_tables(&self.shadow.conn, TABLES_T1)?;
         if t_node != t_ref {
             return Ok(Err(vio(
                 "held-versions-do-not-match-tables",
@@ -250,7 +266,7 @@ impl World {
         }
         let names = BTreeMap::new();
         let c_node = dump_clock(&conn, false, &names)?;
-        let c_ref = dump_clock(&shadow.conn, false, &names)?;
+        let c_ref = dump_clock(&self.shadow.conn, false, &names)?;
         if c_node != c_ref {
             return Ok(Err(vio(
                 "held-versions-do-not-match-crdt-metadata",
